@@ -32,6 +32,33 @@ def bench(cls_name, **kw):
     return _cache[key]
 
 
+VEC = st.sampled_from(["list", "list", "ndarray", "npfloats"])
+
+
+def mk_vec(x, kind):
+    """the design vector as callers hand it over: a list of floats, a float64 ndarray (what SciPy-style optimisers
+    pass) or a list of numpy floats"""
+    if kind == "ndarray":
+        import numpy as np
+        return np.array(x, dtype=float)
+    if kind == "npfloats":
+        import numpy as np
+        return [np.float64(v) for v in x]
+    return list(x)
+
+
+def evaluate_at(clause, prob, x, kind):
+    """f(x), and the point must still be x afterwards (evaluating a design does not move it)"""
+    from artap.individual import Individual
+    ind = Individual(mk_vec(x, kind))
+    f = prob.evaluate(ind)
+    after = [float(v) for v in ind.vector]
+    if after != [float(v) for v in x]:
+        raise Violation(clause, "design-moved-by-evaluate:%s" % (kind or "list"),
+                        "%s: evaluating the design changed its vector from %r to %r" % (type(prob).__name__, x, after))
+    return f
+
+
 unit = st.one_of(st.sampled_from([0.0, 1.0, 0.5, 0.25, 0.75]), st.floats(0.0, 1.0, allow_nan=False),
                  st.floats(0.0, 1.0, allow_nan=False))
 
@@ -50,7 +77,7 @@ def dtlz_cases(draw, family):
         dist = [0.5] * k      # the Pareto-optimal slice
     else:
         dist = draw(st.lists(unit, min_size=k, max_size=k))
-    return {"family": family, "m": m, "x": pos + dist}
+    return {"family": family, "m": m, "x": pos + dist, "vec": draw(VEC)}
 
 
 def g1(xm):
@@ -68,7 +95,7 @@ def check_dtlz(case):
     k = n - m + 1
     with guard("dtlz"):
         prob = bench(fam, dimension=n, m=m)
-        f = prob.evaluate(Individual(list(x)))
+        f = evaluate_at("dtlz", prob, x, case.get("vec"))
     f = [float(v) for v in f]
     if len(f) != m:
         raise Violation("dtlz", "%s:objective-count" % fam, "%d objectives returned for m=%d" % (len(f), m))
@@ -91,13 +118,13 @@ def check_dtlz(case):
     # for DTLZ4 the position variables enter as x^100: values below ~0.9 all act like 0
     vals = [p for p in pos if p != 0.5]
     nt = len(set(vals)) >= 2 or (m == 2 and len(vals) == 1)
-    return {"nt": nt, "classes": [fam, "m%d" % m, "pareto-slice" if on_slice else "off-slice"]}
+    return {"nt": nt, "classes": [fam, "m%d" % m, "pareto-slice" if on_slice else "off-slice", case.get("vec") or "list"]}
 
 
 @st.composite
 def zdt_cases(draw):
     x = draw(st.lists(unit, min_size=30, max_size=30))
-    return {"x": x}
+    return {"x": x, "vec": draw(VEC)}
 
 
 def check_zdt1(case):
@@ -105,7 +132,7 @@ def check_zdt1(case):
     x = case["x"]
     with guard("zdt1"):
         prob = bench("ZDT1")
-        f = prob.evaluate(Individual(list(x)))
+        f = evaluate_at("zdt1", prob, x, case.get("vec"))
     if len(f) != 2:
         raise Violation("zdt1", "objective-count", "%d objectives" % len(f))
     f1, f2 = float(f[0]), float(f[1])
@@ -124,7 +151,7 @@ def check_zdt1(case):
 def biobj_cases(draw):
     x1 = draw(st.one_of(st.sampled_from([0.1, 1.0, 0.5]), st.floats(0.1, 1.0, allow_nan=False)))
     x2 = draw(st.one_of(st.sampled_from([0.0, 5.0, 1.0]), st.floats(0.0, 5.0, allow_nan=False)))
-    return {"x": [x1, x2]}
+    return {"x": [x1, x2], "vec": draw(VEC)}
 
 
 def check_biobj(case):
@@ -132,7 +159,7 @@ def check_biobj(case):
     x = case["x"]
     with guard("biobjective"):
         prob = bench("BiObjectiveTestProblem")
-        f = prob.evaluate(Individual(list(x)))
+        f = evaluate_at("biobjective", prob, x, case.get("vec"))
     if len(f) != 2:
         raise Violation("biobjective", "objective-count", "%d objectives" % len(f))
     f1, f2 = float(f[0]), float(f[1])
